@@ -352,6 +352,8 @@ class Run:
             # collect what happened: new writes, finished calls
             while not self.net.queue.empty():
                 conn, data = self.net.queue.get_nowait()
+                if conn.tag is None:          # a connection the library opened on its own: it belongs to the object that dials this address
+                    conn.tag = HOSTS.index(conn.addr[0])
                 k = conn.tag
                 if k in pending and conn.sent_eof:
                     self.log(ev="Reply", c=k + 1, b=[], src="script")            # the read before this write returned b'' at once
@@ -436,7 +438,7 @@ class Run:
                         scn["ops"][k].insert(cursors[k], {"op": "reconnect", "after_hangup": True})
                     start_next(k)
                     continue
-            conn = next(c for c in self.net.conns if c.tag == k and not c.closing)
+            conn = self._conn(k)
             data = b"" if conn.sent_eof else devreply(d, self.devs[k])
             self.log(ev="Reply", c=k + 1, b=list(data), src="device" if (d["t"] == "listing" and data) else "script")
             conn.feed(data)
@@ -477,6 +479,15 @@ class Run:
         self.net.conns[-1].tag = k
         self.log(ev="Connect", c=k + 1, ok=True, flag=bool(api.connected))
         return (None, None)
+
+    def _conn(self, k: int):
+        """The connection instance k talks on now: its latest open one, else the latest (a library may have closed it itself;
+        feeding a closed connection does nothing, as with a real socket)."""
+        mine = [c for c in self.net.conns if c.tag == k or (c.tag is None and c.addr[0] == HOSTS[k])]
+        for c in mine:
+            c.tag = k
+        live = [c for c in mine if not c.closing]
+        return (live or mine)[-1]
 
     def _ret(self, k: int, op: dict, res, exc):
         if isinstance(exc, CallerGaveUp):
@@ -578,6 +589,8 @@ class ScriptRun(Run):
             await vnet.settle(3)
             while not self.net.queue.empty():
                 conn, data = self.net.queue.get_nowait()
+                if conn.tag is None:
+                    conn.tag = HOSTS.index(conn.addr[0])
                 if conn.tag in pending and conn.sent_eof:
                     self.log(ev="Reply", c=conn.tag + 1, b=[], src="script")     # the read before this write returned b'' at once
                 self.log(ev="Write", c=conn.tag + 1, b=list(data), clk=vnet.clk_ceil())
@@ -616,7 +629,7 @@ class ScriptRun(Run):
                     self.skipped += 1
                     continue
                 pending.pop(k)
-                conn = next(c for c in self.net.conns if c.tag == k and not c.closing)
+                conn = self._conn(k)
                 data = b"" if conn.sent_eof else devreply(_concrete_reply(act, rng), self.devs[k])
                 self.log(ev="Reply", c=k + 1, b=list(data), src="script")
                 conn.feed(data)
@@ -627,7 +640,7 @@ class ScriptRun(Run):
                 break
             for k in list(pending):
                 pending.pop(k)
-                conn = next(c for c in self.net.conns if c.tag == k and not c.closing)
+                conn = self._conn(k)
                 self.log(ev="Reply", c=k + 1, b=[], src="script")
                 conn.feed(b"")
             await collect()
